@@ -11,6 +11,7 @@ package main
 
 import (
 	"encoding/base64"
+	"encoding/hex"
 	"fmt"
 	"math"
 	"math/rand"
@@ -223,6 +224,27 @@ func dagjsonEncode(n datamodel.Node) (b []byte, err error) {
 	return ipldprime.Encode(n, dagjson.Encode)
 }
 
+// internPk is internHex with the constants written as packed primitive integers (Check_CBOR.pk): Coq 8.16
+// interprets string literals slowly, and the case files of the signing payload are mostly hex constants
+func internPk(body string) (defs string, out string) {
+	names := map[string]string{}
+	var sb strings.Builder
+	out = hxRe.ReplaceAllStringFunc(body, func(m string) string {
+		h := hxRe.FindStringSubmatch(m)[1]
+		if n, ok := names[h]; ok {
+			return n
+		}
+		n := fmt.Sprintf("s_%d", len(names))
+		names[h] = n
+		raw, _ := hex.DecodeString(h)
+		fmt.Fprintf(&sb, "Definition %s : bstr := Eval vm_compute in %s.\n", n, pk(raw))
+		return n
+	})
+	return sb.String(), out
+}
+
+const jsonCaseHeader = "From Coq Require Import Uint63.\nFrom Ucanto Require Import Base Ipld Cbor Check_CBOR Formats DagJson Signing Check_Json.\nOpen Scope N_scope.\n"
+
 // writeShards writes case files cases_<tag>_<kind>_NN.v evaluating `fn cases`
 func writeShards(dir, tag, kind, typ, fn string, cases []string, shards int) error {
 	if len(cases) == 0 {
@@ -235,8 +257,8 @@ func writeShards(dir, tag, kind, typ, fn string, cases []string, shards int) err
 			hi = len(cases)
 		}
 		var sb strings.Builder
-		sb.WriteString("From Ucanto Require Import Base Ipld Cbor Formats DagJson Signing Check_Json.\nOpen Scope N_scope.\n")
-		defs, body := internHex(coqList(cases[k*per : hi]))
+		sb.WriteString(jsonCaseHeader)
+		defs, body := internPk(coqList(cases[k*per : hi]))
 		sb.WriteString(defs)
 		fmt.Fprintf(&sb, "Definition cases : list %s := %s.\n", typ, body)
 		fmt.Fprintf(&sb, "Definition M := Eval vm_compute in %s cases.\nPrint M.\n", fn)
